@@ -17,7 +17,7 @@ PROPERTY = "C19"
 RULE = ("unit = first domain of the tuple (+ tuple length); paths = every tuple of menu domains starting with it x array layout; "
         "non-trivial = tuples with a proper overlap (interpolation happens) ; distinct by (tuple, layout)")
 ASSUMPTIONS = ["when overlap/step has fractional part exactly 1/2 either rounding is accepted", "overlap shorter than the coarsest step: not asserted (statement leaves it open)"]
-BOUNDS = {"quick": "all 81 pairs and 729 triples of 9 domains", "thorough": "plus all 6561 quadruples"}
+BOUNDS = {"quick": "all 81 pairs and 729 triples of 9 domains; the pairs again in two other coordinate frames (SI metres, offset 1e6)", "thorough": "plus all 6561 quadruples; triples in the other frames"}
 TECHNIQUE = "all tuples of 2-4 domains from a 9-domain menu x basis arrays x axis layouts, against a pure-Python interpolation oracle"
 LEVEL_TEXT = "every tuple of menu domains is equalised with identity-basis arrays (so every basis function is interpolated); start, end, spacing, count and every interpolated value are decided against an independent piecewise-linear oracle; estimator captures with a foreign domain against the trapezoid integral on the common grid"
 LEVEL_NOTE = "9-domain menu (uniform steps 1, 1/2, 3; non-uniform; nested; partially overlapping; touching; disjoint; unsorted)"
